@@ -1023,7 +1023,9 @@ class Engine:
         for gg, a in s.mem.ptr_alts(p, 'free'):
             g2 = gand(g, gg)
             if g2 is False or a == 0: continue
-            if a is None: s.add_check(g2, 'ENGINE-LIMIT non-enumerable pointer in free', 'limit'); continue
+            if a is None:
+                if s.opts.get('feas') and not isinstance(g2, bool) and not s.feasible(g2): continue
+                s.add_check(g2, 'ENGINE-LIMIT non-enumerable pointer in free', 'limit'); continue
             r = s.mem.region_of(a)
             if r is None or r.kind != 'heap' or r.base != a:
                 s.add_check(g2, 'free of non-heap pointer in ' + f.name[:70], 'mem'); continue
